@@ -323,7 +323,8 @@ class GeneralDataType(AbstractDataType):
         return self._encoding.get(string, self.state_count)
 
     def partial(self, string: str, use_ambiguities=True) -> tuple[float, ...]:
-        if string in self.codes:
+        # without ambiguities only states and their aliases are observed
+        if string in self.codes and (use_ambiguities or string in self._encoding):
             p = np.zeros(self.state_count)
             p[self.codes[string]] = 1.0
         else:
